@@ -44,11 +44,11 @@ def esc1(ctx, c):
     phases = []
     for q in ("Program.process", "Program.translate_statements"):
         for kind, what, stack, node in cg.sites.get(q, []):
-            if kind == "call" and what not in ("Program.translate_statements",):
-                phases.append((q, what, stack, node))
+            if kind in ("call", "call?") and what not in ("Program.translate_statements",):
+                phases.append((q, what, stack, node, kind == "call?"))
     c.floor("phase call sites", len(phases), 8)
     seen = set()
-    for q, what, stack, node in phases:
+    for q, what, stack, node, weak_site in phases:
         for exc, origin in sorted(esc.get(what, ())):
             if exc in ALLOWED:
                 continue
@@ -61,6 +61,9 @@ def esc1(ctx, c):
             f = cg.funcs[q]
             if key in TRIAGED:
                 c.ok(entry, "triaged may-result: %s (%s)" % (key, TRIAGED[key]), repo.loc(f, node))
+                continue
+            if weak_site or (exc, origin) in cg.weak.get(what, ()):
+                c.undecided(entry, key + " (through a call resolved by method name only)", "receiver type not established: %s" % U(node.func), repo.loc(f, node))
                 continue
             c.finding(entry, key, "%s raised at %s can leave Program.process through %s: the command line catches only ParseError and TranslationError, so it surfaces as a traceback"
                       % (exc, origin, what), repo.loc(f, node))
@@ -104,7 +107,7 @@ def esc1(ctx, c):
             if isinstance(x, ast.Raise) and isinstance(x.exc, ast.Call) and U(x.exc.func) in ALLOWED:
                 n += 1
                 args = x.exc.args
-                good = len(args) == 2 and U(args[1]) in ("line", "self", "statement")
+                good = len(args) == 2 and isinstance(args[1], ast.Name)
                 c.check(good, "%s:raise %s@%d" % (f.q, U(x.exc.func), n), "carries the offending line/statement", "arguments %s" % [U(a)[:30] for a in args],
                         "%s raises %s without the offending line/statement as second argument" % (f.q, U(x.exc.func)), repo.loc(f, x))
     c.floor("diagnostic raise sites", n, 6)
@@ -208,7 +211,7 @@ def _callers_guard(cg, f, name):
     callers = []
     for q, acc in cg.sites.items():
         for kind, what, stack, node in acc:
-            if kind == "call" and what == f.q:
+            if kind in ("call", "call?") and what == f.q:
                 callers.append((q, node))
     if not callers:
         return None
